@@ -79,6 +79,14 @@ def rand_gate_program(rng, n: int, max_len: int, max_her: int = 2) -> list:
         elif n >= 2 and r < 0.34:
             q1, q2 = rng.sample(range(n), 2)
             prog.append(["SWAP", q1, q2])
+        elif r < 0.66 and r >= 0.62:
+            # a rotation by a TINY exact angle (sin ~ 2/m, m = 4e8 .. 2e9): Pauli expectation values of magnitude 1e-9 .. 1e-8
+            # that are not zero
+            m = rng.choice([4 * 10**8, 10**9, 2 * 10**9])
+            c, s_ = Fraction(m * m - 1, m * m + 1), Fraction(2 * m, m * m + 1)
+            sgn = rng.choice([1, -1])
+            rows = [[f"{c}", f"{-sgn * s_}"], [f"{sgn * s_}", f"{c}"]]
+            prog.append(["U", rng.randrange(n), rows])
         elif r < 0.62:
             u = cg.exact_unitary(rng, 2, depth=rng.randint(1, 3))
             prog.append(["U", rng.randrange(n), [[gq_to_q2s(x) for x in row] for row in u]])
